@@ -37,7 +37,8 @@ RULE = ("every template (quick 8 messages per template, thorough 16 x 16; x5 for
         "{no replacement table, agent/session/circuit table}; Variable fields with a registered serializer carry payloads "
         "generated from that serializer's template so the =| path is exercised; forced awkward strings; + text fuzz for "
         "the safe-mode clause. distinct_nontrivial = distinct (message, block-count vector, beautify, table) round trips"
-        ". Round-5 additions: the replacement table is the caller's - value tables, a table whose values are all zero-like, a table of callables (printed with values, parsed with callables); a directed law for what [[NAME]] stands for (table value, called if callable, whatever its truthiness; undefined names are errors)")
+        ". Round-5 additions: the replacement table is the caller's - value tables, a table whose values are all zero-like, a table of callables (printed with values, parsed with callables); a directed law for what [[NAME]] stands for (table value, called if callable, whatever its truthiness; undefined names are errors)"
+        ". Round 7: doubles that are exact singles; pairs of messages carrying the same payload under different switching siblings printed alternately from short-lived objects")
 ASSUMPTIONS = [
     "packet id, acks and extra header bytes are not part of the text: compared bodies use the same header fields",
     "float values are NaN-free (as C01); NaN has no stable textual form",
